@@ -951,15 +951,17 @@ def uniter_collect(f):
 def unget_copied_unwrap_or(f):
     """R6: `X.get(I).copied().unwrap_or(DFLT)` -> `(if I < X.len() { X[I] } else { DFLT })`"""
     n = 0
+    pos = 0
     while True:
-        m = re.search(r'([\w.]+)\s*\.get(\()', f.body)
+        m = re.compile(r'([\w.]+)\s*\.get(\()').search(f.body, pos)
         if not m:
             break
         close = match_brace(f.body, m.start(2))
         idx = f.body[m.start(2) + 1:close].strip()
         m2 = re.match(r'\s*\.copied\(\)\s*\.unwrap_or(\()', f.body[close + 1:])
         if not m2:
-            break
+            pos = m.end()
+            continue
         o2 = close + 1 + m2.start(1)
         c2 = match_brace(f.body, o2)
         dflt = f.body[o2 + 1:c2].strip()
